@@ -87,6 +87,10 @@ func (m *mon) expand(id string, fs FileSet, base *Outcome, o RunOpts, verbose bo
 	w.Seen = ds
 	seen := map[string]bool{}
 	for _, d := range ds {
+		if strings.Contains(d.Norm, "Webhooks.*.Operations.*.Path") {
+			// a webhook has no path; what the parser stores there is not part of the API (and is where the path-item cache leaks)
+			continue
+		}
 		sig := "expand/api-differs:" + expandClass(d)
 		if seen[sig] {
 			continue
